@@ -9,3 +9,7 @@ import GoFlags.Props.C02
 #print axioms GoFlags.C02.quoted_same_as_plain
 #print axioms GoFlags.C02.option_looking_argument_rejected
 #print axioms GoFlags.C02.negative_number_accepted
+#print axioms GoFlags.C02.parseOption_flag
+#print axioms GoFlags.C02.parseShortLoop_cluster
+#print axioms GoFlags.C02.flatMap_encodeRune_length
+#print axioms GoFlags.C02.cluster_is_its_flags_in_order
